@@ -38,6 +38,13 @@ TEXT = {
          "through all 16 schema-taking entry points, which are also compared with each other.",
          "proof over a hand-written model of the checkers on concrete values; the resolved schema is serialised from Rust's ValidatorSchema (schema "
          "construction not modelled); correspondence is sampled (generators in harness/src/gen_schema.rs)"),
+ "C08": ("Lean theorems over mirrors of Template::link/check_binding/condition, of ast::PolicySet (templates, links, template_to_links_map; add_static, "
+         "add_template, link, unlink, remove_static, remove_template, merge_policyset) and of the public cedar_policy::PolicySet layer: link_eq_subst (evaluating a "
+         "linked policy = evaluating the substituted static policy, by induction over expressions), link_ok_iff, the representation invariant and its preservation "
+         "by every non-merge operation, failed operations change nothing, panic sites unreachable, histories, authorization = authorization over the substituted "
+         "static policies; tied to the code by a differential run over operation histories (both layers) plus an abstract-specification oracle evaluated on the implementation.",
+         "proof over a hand-written model; merge_policyset's invariant preservation and the refinement of the abstract specification are stated but checked only by the "
+         "sampled/exhaustive-small-scope correspondence and the harness oracle"),
 }
 checks = []
 import re
